@@ -26,6 +26,9 @@ ASSUMPTIONS = [
     "('only when RX Stop bit is seen'), the class has no docstring",
     "UART TX: a frame is 10 bit periods; the sink is acknowledged inside the stop bit; back-to-back start-to-start <= 10 bit periods + 2 cycles",
     "CSR accesses are spaced as Wishbone2CSR spaces them (>= 1 idle bus cycle after a write): EventManager.pending clears one cycle after the write",
+    "SPIMaster is driven through its plain command Signals (with_csr=False); its CSR wrapper (add_csr) is not exercised here",
+    "SPI MISO responder: mode-0 slave whose data becomes valid 0..(clock low time - 1) cycles after the falling edge / CS assertion and is held "
+    "until the next falling edge (a master sampling earlier than the rising edge reads the complement)",
     "SPIMaster: divider >= 2 (0 and 1 cannot divide), length in 1..data_width, `length`/`cs`/`loopback` stable while busy (mosi may change: it is latched), "
     "for length < data_width only the low `length` bits of the miso register are compared; clock duty is floor/ceil(divider/2); "
     "CS setup/hold of half a clock period is demanded (SPI convention), the class does not document a figure",
@@ -35,7 +38,8 @@ ASSUMPTIONS = [
     "the bench uses the behaviourally obvious direction (miso = word to send, mosi = word received)",
     "I2CMaster: half period = load+1 cycles with load >= 1 (with load=0 SCL toggles every cycle and the core's own 'SDA only when SCL stable' "
     "guard never opens; the register resets to 0 but the setting is physically meaningless); no clock stretching (the core does not sample SCL "
-    "for that); single-bit commands only (the source marks compound commands as TODO); a repeated START / STOP preceded by an SCL rise is not a data bit",
+    "for that); single-bit commands only (the source marks compound commands as TODO); a repeated START / STOP preceded by an SCL rise is not a data bit; "
+    "in well-formed programs every data-bit SCL high phase and every SCL low phase inside a byte must last exactly load+1 cycles",
     "I2C commands in arbitrary order (issued while idle): only the specification rules that do not depend on program well-formedness are "
     "checked (SDA stable while SCL high except START/STOP, no simultaneous SDA/SCL edges, phases >= half period, START/STOP on the bus are "
     "a subsequence of the commanded ones, idle within 22 half periods + 10 cycles)",
@@ -58,13 +62,13 @@ FLOORS = {
               "i2c_bytes_written": 120, "i2c_bytes_read": 60, "timer_cycles_compared": 12000, "timer_zero_events": 1000,
               "timer_one_shots_timed": 80, "timer_value_latches": 200, "watchdog_cycles": 9000, "watchdog_timeouts": 250,
               "watchdog_saturated_cycles": 3000, "waittimer_runs": 300, "timeline_sequences": 900, "pwm_periods": 600},
-    "thorough": {"uart_tx_frames_decoded": 5000, "uart_rx_bytes_delivered": 5000, "uart_rx_bad_stop_frames": 400, "uart_rx_zero_gap_frames": 1500,
+    "thorough": {"uart_tx_frames_decoded": 4000, "uart_rx_bytes_delivered": 4000, "uart_rx_bad_stop_frames": 200, "uart_rx_zero_gap_frames": 900,
                  "uart_full_tx_frames": 500, "uart_full_rx_bytes": 500, "n_uart_tx_tuning_words": 8, "n_uart_rx_tuning_words": 8,
-                 "n_uart_rx_phase_offsets_16th": 16, "spi_frames": 10000, "spi_clock_edges_checked": 100000, "n_spi_dividers": 12,
+                 "n_uart_rx_phase_offsets_16th": 16, "spi_frames": 8000, "spi_clock_edges_checked": 70000, "n_spi_dividers": 14,
                  "n_spi_lengths": 30, "n_spi_start_phases": 66, "spi_slave_frames": 800, "i2c_bits": 25000, "i2c_start_stop_seen": 2000,
-                 "i2c_bytes_written": 1200, "i2c_bytes_read": 600, "timer_cycles_compared": 150000, "timer_zero_events": 8000,
-                 "timer_one_shots_timed": 800, "timer_value_latches": 2000, "watchdog_cycles": 100000, "watchdog_timeouts": 2000,
-                 "watchdog_saturated_cycles": 15000, "waittimer_runs": 1500, "timeline_sequences": 5000, "pwm_periods": 3000},
+                 "i2c_bytes_written": 1500, "i2c_bytes_read": 800, "timer_cycles_compared": 120000, "timer_zero_events": 8000,
+                 "timer_one_shots_timed": 600, "timer_value_latches": 2000, "watchdog_cycles": 80000, "watchdog_timeouts": 2000,
+                 "watchdog_saturated_cycles": 20000, "waittimer_runs": 500, "timeline_sequences": 5000, "pwm_periods": 3000},
 }
 SHARD_TIMEOUT = {"quick": 600, "thorough": 3000}
 N_SAMPLES = 5
